@@ -113,3 +113,161 @@ Example admitted_examples :
   admitted [[97;47;42]] js = true /\ admitted [[42;47;42]] js = true /\ admitted [[65;47;74]] js = true /\
   admitted [[98;47;106]] js = false /\ admitted [] js = true.
 Proof. repeat split; reflexivity. Qed.
+
+(* ---- the route's consumes list and consumer table, from what the API author wrote ---- *)
+
+Lemma existsb_iff_eq {A} (f g : A -> bool) l l' :
+  ((exists x, In x l /\ f x = true) <-> (exists x, In x l' /\ g x = true)) -> existsb f l = existsb g l'.
+Proof. intro H. apply Bool.eq_iff_eq_true. rewrite !existsb_exists. exact H. Qed.
+
+Lemma lookup_iff keys mt : existsb (bytes_eqb mt) keys = true <-> In mt keys.
+Proof.
+  rewrite existsb_exists. split.
+  - intros (x & Hx & E). apply bytes_eqb_eq in E. now subst.
+  - intro H. exists mt. split; [exact H|apply bytes_eqb_refl].
+Qed.
+
+Lemma all_lower_In l e : all_lower l = true -> In e l -> lower e = e.
+Proof. unfold all_lower. rewrite forallb_forall. intros H I. apply bytes_eqb_eq. now apply H. Qed.
+
+(* for lists spelled in lower case, AddRoute builds the declared list plus the default (as a set) *)
+Lemma add_route_same_elements declared default :
+  all_lower declared = true -> lower default = default ->
+  forall x, In x (add_route_consumes declared default) <-> In x (spec_consumes declared default).
+Proof.
+  intros LD Ld x. unfold add_route_consumes, spec_consumes. destruct default as [|c d]; [reflexivity|].
+  cbn [is_nilb]. set (df := c :: d) in *.
+  destruct (contains_ci declared df) eqn:C; [|reflexivity].
+  unfold contains_ci in C. apply existsb_exists in C. destruct C as (e & He & E).
+  unfold ci_eqb in E. apply bytes_eqb_eq in E. rewrite Ld, (all_lower_In _ _ LD He) in E. subst e.
+  rewrite in_app_iff. cbn [In]. split; [auto|]. intros [H|[H|[]]]; [exact H|now subst].
+Qed.
+
+Lemma is_nilb_same_elements {A} (l l' : list A) : (forall x, In x l <-> In x l') -> is_nilb l = is_nilb l'.
+Proof.
+  intro H. destruct l as [|a r], l' as [|a' r']; try reflexivity.
+  - exfalso. apply (proj2 (H a')). now left.
+  - exfalso. apply (proj1 (H a)). now left.
+Qed.
+
+Lemma existsb_same_elements {A} (f : A -> bool) l l' : (forall x, In x l <-> In x l') -> existsb f l = existsb f l'.
+Proof.
+  intro H. apply existsb_iff_eq. split; intros (x & I & E); exists x; (split; [now apply H|exact E]).
+Qed.
+
+Lemma admitted_same_elements cs cs' mt : (forall x, In x cs <-> In x cs') -> admitted cs mt = admitted cs' mt.
+Proof.
+  intro H. unfold admitted. rewrite (is_nilb_same_elements _ _ H). f_equal. now apply existsb_same_elements.
+Qed.
+
+Lemma listed_same_elements cs cs' mt : (forall x, In x cs <-> In x cs') -> listed cs mt = listed cs' mt.
+Proof. intro H. unfold listed. now apply existsb_same_elements. Qed.
+
+Lemma listed_iff cs mt : listed cs mt = true <-> In mt (map strip_params cs).
+Proof.
+  unfold listed. rewrite existsb_exists, in_map_iff. split.
+  - intros (e & I & E). apply bytes_eqb_eq in E. exists e. now split.
+  - intros (e & E & I). exists e. split; [exact I|]. apply bytes_eqb_eq. now symmetry.
+Qed.
+
+(* looking a media type up in the consumer table ConsumersFor builds *)
+Lemma route_lookup cs registered mt :
+  existsb (bytes_eqb mt) (route_consumers cs registered) = listed cs mt && existsb (bytes_eqb mt) registered.
+Proof.
+  apply Bool.eq_iff_eq_true. rewrite andb_true_iff, lookup_iff, listed_iff. unfold route_consumers.
+  rewrite filter_In. reflexivity.
+Qed.
+
+Lemma spec_lookup cs registered mt :
+  existsb (bytes_eqb mt) (filter (listed cs) registered) = listed cs mt && existsb (bytes_eqb mt) registered.
+Proof.
+  apply Bool.eq_iff_eq_true. rewrite andb_true_iff, !lookup_iff, filter_In. tauto.
+Qed.
+
+Lemma expected_route_eq hb parse declared default registered :
+  all_lower declared = true -> lower default = default ->
+  expected hb parse (add_route_consumes declared default)
+           (route_consumers (add_route_consumes declared default) registered)
+  = expected_route hb parse declared default registered.
+Proof.
+  intros LD Ld. unfold expected_route, expected, spec_keys.
+  destruct hb; [|reflexivity]. destruct parse as [mt|]; [|reflexivity].
+  rewrite (admitted_same_elements _ _ mt (add_route_same_elements _ _ LD Ld)).
+  rewrite route_lookup, spec_lookup, (listed_same_elements _ _ mt (add_route_same_elements _ _ LD Ld)).
+  reflexivity.
+Qed.
+
+(* AddRoute + ConsumersFor + the gate, end to end, is the specification over what the API author wrote *)
+Theorem route_typed_expected hb parse declared default registered :
+  all_lower declared = true -> lower default = default ->
+  outcome (gate_typed hb parse parse (add_route_consumes declared default)
+                      (route_consumers (add_route_consumes declared default) registered))
+  = expected_route hb parse declared default registered.
+Proof. intros LD Ld. rewrite gate_typed_expected. now apply expected_route_eq. Qed.
+
+Theorem route_untyped_expected hb parse declared default registered :
+  parse <> Some [] -> all_lower declared = true -> lower default = default ->
+  outcome (gate_untyped hb parse parse (add_route_consumes declared default)
+                        (route_consumers (add_route_consumes declared default) registered))
+  = expected_route hb parse declared default registered.
+Proof. intros NE LD Ld. rewrite gate_untyped_expected by exact NE. now apply expected_route_eq. Qed.
+
+(* the parameter-free API default is named by an entry of every consumes list AddRoute builds ... *)
+Theorem default_listed declared default :
+  default <> [] -> strip_params default = default -> listed_ci (add_route_consumes declared default) default = true.
+Proof.
+  intros NE SP. unfold add_route_consumes. destruct default as [|c d]; [contradiction|]. set (df := c :: d) in *.
+  unfold listed_ci. destruct (contains_ci declared df) eqn:C.
+  - unfold contains_ci in C. apply existsb_exists in C. destruct C as (e & He & E).
+    apply existsb_exists. exists e. split; [exact He|].
+    unfold ci_eqb in *. apply bytes_eqb_eq in E. apply bytes_eqb_eq.
+    rewrite <- SP at 1. unfold strip_params. rewrite !lower_span_semicolon. now rewrite E.
+  - rewrite existsb_app. cbn [existsb]. rewrite SP, ci_eqb_refl. cbn. apply orb_true_r.
+Qed.
+
+(* ... and a type so named is admitted *)
+Theorem listed_ci_admitted consumes mt : listed_ci consumes mt = true -> admitted consumes mt = true.
+Proof.
+  unfold listed_ci, admitted. intro H. apply orb_true_iff. right.
+  apply existsb_exists in H. destruct H as (e & I & E). apply existsb_exists. exists e. split; [exact I|].
+  unfold entry_admits. now rewrite E.
+Qed.
+
+(* a body of the API default media type is decoded by the default's consumer whenever one is registered on the
+   API, whatever the operation declares (wildcard entries included) *)
+Lemma spec_consumes_default declared default :
+  default <> [] -> spec_consumes declared default = declared ++ [default].
+Proof. intro NE. unfold spec_consumes. destruct default; [contradiction|reflexivity]. Qed.
+
+Theorem default_consumer_decodes declared default registered :
+  default <> [] -> strip_params default = default -> In default registered ->
+  expected_route true (Some default) declared default registered = (None, Some default).
+Proof.
+  intros NE SP R. unfold expected_route, expected, spec_keys. rewrite (spec_consumes_default _ _ NE).
+  assert (L : listed (declared ++ [default]) default = true).
+  { unfold listed. rewrite existsb_app. cbn [existsb]. rewrite SP, bytes_eqb_refl. cbn. apply orb_true_r. }
+  assert (A : admitted (declared ++ [default]) default = true).
+  { apply listed_ci_admitted. unfold listed_ci. rewrite existsb_app. cbn [existsb]. rewrite SP, ci_eqb_refl.
+    cbn. apply orb_true_r. }
+  rewrite A, spec_lookup, L. cbn [andb]. apply lookup_iff in R. now rewrite R.
+Qed.
+
+(* runtime.ContentType looks at the first header line only, and at the default when there is none or it is empty *)
+Theorem content_type_first_line pmt v rest : content_type pmt (v :: rest) = content_type pmt [v].
+Proof. reflexivity. Qed.
+Theorem content_type_absent pmt : content_type pmt [] = pmt default_mime /\ content_type pmt [[]] = pmt default_mime.
+Proof. split; reflexivity. Qed.
+
+Example default_mime_length : length default_mime = 24 /\ nth 11 default_mime 0 = slash.
+Proof. split; reflexivity. Qed.
+
+Example route_examples :
+  let js := [97;47;106] in let tx := [116;47;112] in   (* a/j  t/p *)
+  let any := [[42;47;42]] in
+  (* declared: the wildcard only; default a/j; consumers for both on the API *)
+  expected_route true (Some js) any js [js; tx] = (None, Some js) /\
+  expected_route true (Some tx) any js [js; tx] = (Some 500, None) /\
+  expected_route true (Some tx) [tx] js [js] = (Some 500, None) /\
+  expected_route true (Some tx) [js] [] [js; tx] = (Some 415, None) /\
+  all_lower [js; tx] = true.
+Proof. repeat split; reflexivity. Qed.
